@@ -121,7 +121,7 @@ class Poller:
 
     def poll(self, timeout=None):
         ready = [(s, POLLIN) for s in self.socks if NET.q(s.address)]
-        if not ready and NET.on_poll is not None:
+        if not ready and NET.on_poll is not None and (timeout is None or timeout > 0):  # a zero-timeout poll does not block: nothing else gets to run
             for s in self.socks:
                 NET.on_poll(s.address)
             ready = [(s, POLLIN) for s in self.socks if NET.q(s.address)]
